@@ -178,6 +178,70 @@ impl Coll for TypesNamed {
     }
 }
 
+/// the type collection of a module that already holds function-entry types (walrus's internal
+/// `() -> R` types of function bodies, created by `FunctionBuilder::new`): they are not function
+/// types of the module, `find` and `add` must never hand them out. The model sees the identifiers
+/// shifted by the number of pre-existing items.
+struct TypesEntry {
+    inner: Types,
+    k: usize,
+}
+impl TypesEntry {
+    fn shift(&self, i: usize) -> usize {
+        if i >= self.k { i - self.k } else { 9000 + i }
+    }
+}
+impl Coll for TypesEntry {
+    const NAME: &'static str = "types-entry";
+    const KIND: &'static str = "set";
+    const HAS_FIND: bool = true;
+    fn new() -> Self {
+        let mut inner = Types::new();
+        let tys = [ValType::I32, ValType::I64, ValType::F32, ValType::F64];
+        let mut rs: Vec<Vec<ValType>> = vec![vec![]];
+        for a in tys {
+            rs.push(vec![a]);
+            for b in tys {
+                rs.push(vec![a, b]);
+            }
+        }
+        for r in rs {
+            // adds the public type (v128) -> R, which no history value denotes, and the entry type () -> R
+            let _ = FunctionBuilder::new(&mut inner.m.types, &[ValType::V128], &r);
+        }
+        let k = inner.m.types.iter().map(|t| t.id().index() + 1).max().unwrap_or(0);
+        TypesEntry { inner, k }
+    }
+    fn add(&mut self, v: u64) -> usize {
+        let (p, r) = valtypes_of(v);
+        let id = self.inner.m.types.add(&p, &r);
+        self.inner.vals.entry((p, r)).or_insert(v);
+        let ix = self.shift(id.index());
+        while self.inner.ids.len() <= ix {
+            self.inner.ids.push(None);
+        }
+        self.inner.ids[ix] = Some(id);
+        ix
+    }
+    fn known(&self) -> usize {
+        self.inner.known()
+    }
+    fn del(&mut self, i: usize) {
+        self.inner.del(i)
+    }
+    fn idx(&self, i: usize) -> u64 {
+        self.inner.idx(i)
+    }
+    fn iter(&mut self) -> Vec<(usize, u64)> {
+        let k = self.k;
+        self.inner.m.types.iter().filter(|t| t.id().index() >= k).map(|t| (t.id().index() - k, self.inner.vals[&(t.params().to_vec(), t.results().to_vec())])).collect()
+    }
+    fn find(&self, v: u64) -> Option<usize> {
+        let (p, r) = valtypes_of(v);
+        self.inner.m.types.find(&p, &r).map(|id| self.shift(id.index()))
+    }
+}
+
 macro_rules! plain_coll {
     (@len $s:ident, $field:ident, true) => { $s.m.memories.len() };
     (@len $s:ident, $field:ident, false) => { unreachable!() };
@@ -599,6 +663,7 @@ pub fn main(seed: u64, tier: &str, only: Option<&str>) {
         match coll {
             "types" => go!(Types),
             "types-named" => go!(TypesNamed),
+            "types-entry" => go!(TypesEntry),
             "memories" => go!(Memories),
             "tables" => go!(Tables),
             "globals" => go!(Globals),
@@ -615,6 +680,7 @@ pub fn main(seed: u64, tier: &str, only: Option<&str>) {
     let (n, maxlen, enum_len) = if tier == "thorough" { (6000, 60, 5) } else { (250, 40, 3) };
     suite::<Types>(seed, n * 2, maxlen, enum_len, &mut seen);
     suite::<TypesNamed>(seed ^ 0x7a, n, maxlen, enum_len, &mut seen);
+    suite::<TypesEntry>(seed ^ 0x7b, n, maxlen, enum_len, &mut seen);
     suite::<Memories>(seed, n, maxlen, enum_len, &mut seen);
     suite::<Tables>(seed, n, maxlen, enum_len.min(3), &mut seen);
     suite::<Globals>(seed, n, maxlen, enum_len.min(3), &mut seen);
